@@ -217,7 +217,11 @@ class C09(BaseCheck):
             vspans = by.get('ver', [])
             if vspans and vspans[0][0] < b:
                 va, vb = vspans[0]            # the quoted version string of the header, quotes included
-                bad = r.choice(['""', '"abc"', '"v3"', '".."', text[va:vb - 1], '"-3.0"'])
+                inner = text[va + 1:vb - 1]
+                bad = r.choice(['""', '"abc"', '"v3"', '".."', text[va:vb - 1], '"-3.0"',
+                                # a raw control character or line break inside the quoted version
+                                '"%s\n%s"' % (inner[:1], inner[1:]), '"%s\x01%s"' % (inner[:1], inner[1:]),
+                                '"%s\x1f"' % inner, '"%s\r%s"' % (inner[:2], inner[2:])])
                 out.append((text[:va] + bad + text[vb:], 'malformed-version',
                             'version string replaced by %r (empty, non-numeric or unterminated)' % bad))
         escs = by.get('esc', [])
